@@ -10,6 +10,10 @@
 #    networks injected by a misbehaving peer are outside the statement's "IPv4 and IPv6 prefixes".
 #  * the verdict compares the real answer with the oracle of the STATEMENT (RouteTable!CidrOracle) evaluated on a
 #    table whose full content was just compared with the real table; table maintenance itself is C10's subject.
+#    In particular a stale route that a faulty cleanup leaves behind is still a STORED route, so returning it does not
+#    break this statement: whether cleanup removes exactly the stale foreign routes is decided by C10.  When this
+#    check sees the table content diverge from the modelled maintenance it logs a note ("C10's domain") and gives
+#    no verdict on it.
 import vf, _routetable as R
 
 
@@ -27,7 +31,9 @@ def run(ctx):
                               "bounded model: abstract prefixes of <= 2 symbols in two families, 2 origins, metrics 1..2 "
                               "plus local metric 0, <= 3 entries; every symbol is expanded to a random block of real "
                               "address bits per walk; traces use 3 symbols, 9 prefixes, 7 origins",
-                              "single-threaded histories (the tables serialise all operations under one lock)"],
+                              "single-threaded histories (the tables serialise all operations under one lock)",
+                              "maintenance (incl. exactness of stale-route cleanup) is decided by C10; divergences of the "
+                              "table content are only logged here (findings_of_sibling_properties_seen)"],
                  states=sum(r.distinct for r in results.values()), transitions=tot["edges"],
                  traces_validated_against_impl=sum(s["walks"] for s in summ.values()) + tsum["validated_traces"],
                  exhaustive=all(s["uncovered"] == 0 for s in summ.values()), cfgs={n: {"states": r.distinct, "transitions": r.generated - 1} for n, r in results.items()},
